@@ -146,6 +146,11 @@ theorem per_source_results_are_ungrouped :
     Gen.PsfTable.ungroupFlattensThenOrders = true ∧ Gen.PsfTable.orderByIdIndexesWithUngroupIndices = true := by
   decide
 
+/-- TABLE OBLIGATION (regenerated from `PSFPhotometry._prepare_init_params`): the grouper is called, and the `group_id` column assigned,
+    only under the test that the table carries no `group_id` column - a supplied grouping wins over a configured grouper (seed C12-r10
+    flattened the test) -/
+theorem supplied_group_id_wins : Gen.PsfTable.suppliedGroupIdWins = true := by decide
+
 /-! ### no delegating call in this property's modules drops an argument it holds (table regenerated from the source) -/
 
 /-- TABLE OBLIGATION: in the modules of this property, every call that delegates to another photutils function, method or
